@@ -129,8 +129,8 @@ def evalConds (sub : Sub) (sc : Script) (kd : Kinds) (x : Ctx) (conds : List Con
 
 /-- `AsyncTransition._change_state` -/
 def changeState (sub : Sub) (sc : Script) (kd : Kinds) (cfg : Cfg) (x : Ctx) (t : Trans) (dst : Nat) (s : St) : R Unit :=
-  -- await machine.get_state(self.source).exit(event_data)
-  match cfg.state? t.source with
+  -- await machine.get_model_state(model).exit(event_data): the state the model is in now (repaired in ba1cc46)
+  match cfg.state? (s.stateOf x.model) with
   | none => .err .valueError s
   | some src =>
     (callbacks sub sc kd .onExit x src.onExit s).bind fun _ s1 =>
